@@ -416,7 +416,22 @@ PC_FIELDS = ['name', 'type', 'bounds', 'feasible', 'scale', 'default', 'external
 
 
 def part(task):
-  """One generator family in one worker."""
+  """One generator family in one worker (optionally under another local time zone: times travel as UTC seconds, objects hold
+  naive local datetimes)."""
+  if task.get('tz'):
+    import os
+    import time
+    old = os.environ.get('TZ')
+    os.environ['TZ'] = task['tz']
+    time.tzset()
+    try:
+      return part(dict(task, tz=None))
+    finally:
+      if old is None:
+        os.environ.pop('TZ', None)
+      else:
+        os.environ['TZ'] = old
+      time.tzset()
   vz = _vz()
   from vizier._src.pyvizier.oss import proto_converters as pc
   from vizier.service import pyvizier as svz
@@ -559,6 +574,11 @@ def run(ctx):
     tasks.append({'part': 'trial', 'quick': q, 'shard': (i, 6)})
   for i in range(8):
     tasks.append({'part': 'service', 'quick': q, 'shard': (i, 8), 'backends': ['ram', 'sqlmem']})
+  # the parts that carry times, again under local time zones with a half-hour offset east and west of UTC
+  for tz in ('Asia/Kolkata', 'America/St_Johns'):
+    for sh in (0, 1):     # both parities: the innermost generator field (the creation time) alternates
+      tasks.append({'part': 'trial', 'quick': True, 'shard': (sh, 6 if q else 2), 'tz': tz})
+      tasks.append({'part': 'service', 'quick': True, 'shard': (sh, 8 if q else 2), 'backends': ['ram'], 'tz': tz})
   tot = {'n': 0, 'built': 0, 'unbuildable': 0}
   per = {}
   for r in ctx.pmap('part', tasks):
